@@ -1,6 +1,8 @@
 package rules
 
 import (
+	"go/constant"
+	"math"
 	"go/ast"
 	"go/token"
 	"go/types"
@@ -400,277 +402,7 @@ func c07(c *core.Ctx) {
 	}
 
 	rW := c.Rule("C07.window", "findTimeRangeBounds realises the half-open window [from,to) on both index directions: on the ascending branch start = first index with ts >= from and end = (first index with ts >= to) - 1; on the descending branch start = first index with ts < to and end = (first index with ts < from) - 1; the branch is chosen by a test that is true exactly for the ascending sort orders. Each search is reduced to 'first index where P(ts)' whether it is a hand-written bisection or a sort.Search call", 4)
-	{
-		f := c.Fn(pkgBeacon + ".beacon.findTimeRangeBounds")
-		info := f.Info()
-		sig := f.Obj.Type().(*types.Signature)
-		body := f.Decl.Body
-		// which bound an expression denotes: a local assigned from <param i>....UnixNano()
-		boundKind := func(e ast.Expr) string {
-			obj := core.ObjOf(info, e)
-			if obj == nil {
-				return ""
-			}
-			kind := ""
-			ast.Inspect(body, func(x ast.Node) bool {
-				as, ok := x.(*ast.AssignStmt)
-				if !ok || len(as.Lhs) != len(as.Rhs) {
-					return true
-				}
-				for i, l := range as.Lhs {
-					if core.ObjOf(info, l) != obj {
-						continue
-					}
-					ast.Inspect(as.Rhs[i], func(y ast.Node) bool {
-						if id, isId := y.(*ast.Ident); isId && sig.Params().Len() >= 2 {
-							if info.Uses[id] == sig.Params().At(0) {
-								kind = "from"
-							}
-							if info.Uses[id] == sig.Params().At(1) {
-								kind = "to"
-							}
-						}
-						return true
-					})
-				}
-				return true
-			})
-			return kind
-		}
-		// result variables
-		var startObj, endObj types.Object
-		ast.Inspect(body, func(x ast.Node) bool {
-			if ret, ok := x.(*ast.ReturnStmt); ok && len(ret.Results) == 2 {
-				a, b2 := core.ObjOf(info, ret.Results[0]), core.ObjOf(info, ret.Results[1])
-				if a != nil && b2 != nil {
-					startObj, endObj = a, b2
-				}
-			}
-			return true
-		})
-		// ascending sort orders: constants assigned to sortOrder by methods whose comparator is <
-		ascConst := map[types.Object]bool{}
-		descConst := map[types.Object]bool{}
-		sortOrderF := p.MustField(pkgBeacon, "beacon", "sortOrder")
-		for _, m := range p.FuncsIn(pkgBeacon) {
-			if m.Decl.Body == nil || m.Decl.Recv == nil {
-				continue
-			}
-			_, op, ok := comparatorOf(m)
-			if !ok {
-				continue
-			}
-			ast.Inspect(m.Decl.Body, func(x ast.Node) bool {
-				if as, isAs := x.(*ast.AssignStmt); isAs && len(as.Lhs) == 1 && len(as.Rhs) == 1 && core.FieldOf(m.Info(), as.Lhs[0]) == sortOrderF {
-					if k, isK := core.ObjOf(m.Info(), as.Rhs[0]).(*types.Const); isK {
-						if op == token.LSS {
-							ascConst[k] = true
-						}
-						if op == token.GTR {
-							descConst[k] = true
-						}
-					}
-				}
-				return true
-			})
-		}
-		// the direction test
-		var dirIf *ast.IfStmt
-		thenAsc, classified := false, false
-		for _, st := range body.List {
-			is, ok := st.(*ast.IfStmt)
-			if !ok || is.Else == nil {
-				continue
-			}
-			cond := is.Cond
-			if id, isId := core.Unparen(cond).(*ast.Ident); isId {
-				if def := localDef(info, body, info.Uses[id]); def != nil {
-					cond = def
-				}
-			}
-			set := map[types.Object]bool{}
-			pure := true
-			var collect func(e ast.Expr)
-			collect = func(e ast.Expr) {
-				e = core.Unparen(e)
-				be, isB := e.(*ast.BinaryExpr)
-				if !isB {
-					pure = false
-					return
-				}
-				switch be.Op {
-				case token.LOR:
-					collect(be.X)
-					collect(be.Y)
-				case token.EQL:
-					if core.FieldOf(info, be.X) == sortOrderF {
-						if k, isK := core.ObjOf(info, be.Y).(*types.Const); isK {
-							set[k] = true
-							return
-						}
-					}
-					pure = false
-				default:
-					pure = false
-				}
-			}
-			collect(cond)
-			if !pure || len(set) == 0 {
-				continue
-			}
-			same := func(a, b map[types.Object]bool) bool {
-				if len(a) != len(b) {
-					return false
-				}
-				for k := range a {
-					if !b[k] {
-						return false
-					}
-				}
-				return true
-			}
-			dirIf = is
-			if same(set, ascConst) {
-				thenAsc, classified = true, true
-			} else if same(set, descConst) {
-				thenAsc, classified = false, true
-			}
-		}
-		if dirIf == nil || !classified || startObj == nil || endObj == nil {
-			rW.Bad(f.Key+":direction-test", f.Decl.Pos(), "the branch between ascending and descending search is not a test of sortOrder against exactly the ascending (or exactly the descending) sort orders: an index direction is searched with the wrong comparison")
-		} else {
-			type pred struct {
-				op     token.Token
-				bound  string
-				minus1 bool
-				pos    token.Pos
-				ok     bool
-			}
-			norm := func(be *ast.BinaryExpr) (token.Token, string, bool) {
-				// ts OP bound, ts being a call
-				x, y, op := core.Unparen(be.X), core.Unparen(be.Y), be.Op
-				if _, isCall := x.(*ast.CallExpr); !isCall {
-					if _, yCall := y.(*ast.CallExpr); yCall {
-						x, y, op = y, x, mirror(op)
-					} else {
-						return token.ILLEGAL, "", false
-					}
-				}
-				k := boundKind(y)
-				return op, k, k != ""
-			}
-			extract := func(branch ast.Stmt, target types.Object) pred {
-				out := pred{}
-				ast.Inspect(branch, func(x ast.Node) bool {
-					blk, ok := x.(*ast.BlockStmt)
-					if !ok {
-						return true
-					}
-					for i, st := range blk.List {
-						as, isAs := st.(*ast.AssignStmt)
-						if !isAs || len(as.Lhs) != 1 || core.ObjOf(info, as.Lhs[0]) != target {
-							continue
-						}
-						rhs := core.Unparen(as.Rhs[0])
-						out.pos = as.Pos()
-						if be, isB := rhs.(*ast.BinaryExpr); isB && be.Op == token.SUB && isConst(info, be.Y, 1) {
-							out.minus1 = true
-							rhs = core.Unparen(be.X)
-						}
-						// sort.Search(n, func(i int) bool { return ts OP bound })
-						if call, isCall := rhs.(*ast.CallExpr); isCall && core.IsCallTo(info, call, "sort.Search") && len(call.Args) == 2 {
-							if lit, isLit := core.Unparen(call.Args[1]).(*ast.FuncLit); isLit && len(lit.Body.List) == 1 {
-								if ret, isRet := lit.Body.List[0].(*ast.ReturnStmt); isRet && len(ret.Results) == 1 {
-									if be, isB := core.Unparen(ret.Results[0]).(*ast.BinaryExpr); isB {
-										out.op, out.bound, out.ok = norm(be)
-									}
-								}
-							}
-							continue
-						}
-						// hand-written bisection: result variable = the local moved by `x = m + 1`
-						resObj := core.ObjOf(info, rhs)
-						if resObj == nil || i == 0 {
-							continue
-						}
-						loop, isLoop := blk.List[i-1].(*ast.ForStmt)
-						if !isLoop {
-							continue
-						}
-						ast.Inspect(loop.Body, func(y ast.Node) bool {
-							is, isIf := y.(*ast.IfStmt)
-							if !isIf {
-								return true
-							}
-							be, isB := core.Unparen(is.Cond).(*ast.BinaryExpr)
-							if !isB {
-								return true
-							}
-							op, k, okN := norm(be)
-							if !okN {
-								return true
-							}
-							// which variable does the then-branch move, and how
-							thenMovesResUp := false
-							thenMovesOther := false
-							for _, st2 := range is.Body.List {
-								if a2, ok2 := st2.(*ast.AssignStmt); ok2 && len(a2.Lhs) == 1 {
-									if core.ObjOf(info, a2.Lhs[0]) == resObj {
-										if b3, isB3 := core.Unparen(a2.Rhs[0]).(*ast.BinaryExpr); isB3 && b3.Op == token.ADD && isConst(info, b3.Y, 1) {
-											thenMovesResUp = true
-										}
-									} else {
-										thenMovesOther = true
-									}
-								}
-							}
-							switch {
-							case thenMovesResUp: // C true -> search to the right: first index where !C
-								out.op, out.bound, out.ok = core.Negate(op), k, true
-							case thenMovesOther: // C true -> this index is a candidate: first index where C
-								out.op, out.bound, out.ok = op, k, true
-							}
-							return true
-						})
-					}
-					return true
-				})
-				return out
-			}
-			var ascBranch, descBranch ast.Stmt = dirIf.Body, dirIf.Else
-			if !thenAsc {
-				ascBranch, descBranch = dirIf.Else, dirIf.Body
-			}
-			want := []struct {
-				key    string
-				branch ast.Stmt
-				target types.Object
-				op     token.Token
-				bound  string
-				minus1 bool
-				text   string
-			}{
-				{"asc/start", ascBranch, startObj, token.GEQ, "from", false, "first index with ts >= from"},
-				{"asc/end", ascBranch, endObj, token.GEQ, "to", true, "(first index with ts >= to) - 1"},
-				{"desc/start", descBranch, startObj, token.LSS, "to", false, "first index with ts < to"},
-				{"desc/end", descBranch, endObj, token.LSS, "from", true, "(first index with ts < from) - 1"},
-			}
-			for _, w := range want {
-				got := extract(w.branch, w.target)
-				construct := f.Key + ":" + w.key
-				if !got.ok {
-					rW.Undecided(construct, got.pos, "the search that sets this bound is neither a bisection of the recognised shape nor a sort.Search call")
-					continue
-				}
-				m1 := ""
-				if got.minus1 {
-					m1 = " - 1"
-				}
-				rW.Check(got.op == w.op && got.bound == w.bound && got.minus1 == w.minus1, construct, got.pos, w.text,
-					"this bound is (first index with ts "+got.op.String()+" "+got.bound+")"+m1+"; the half-open window [from,to) needs "+w.text+": a record whose timestamp equals a bound is returned or dropped on the wrong side")
-			}
-		}
-	}
+	windowRule(c, rW)
 
 	rFO := c.Rule("C07.fieldorder", "every call in package swamp that (re)orders one of the swamp's index fields - any beacon method that sorts the ordered slice, including the re-index helpers - orders it by the attribute and in the direction that field is built with (the field's position and type constant at the buildBeacon call); sortBeaconByType receives the order constant of the field's direction", 10)
 	{
@@ -926,5 +658,395 @@ func lazyInitRule(c *core.Ctx, r *core.Rule) {
 	}
 	if n == 0 {
 		r.Bad(pkgSwamp+":index-calls", token.NoPos, "no calls on lazily built index fields found")
+	}
+}
+
+// defineExpr returns the right-hand side of the := (or var ... =) that introduces obj.
+func defineExpr(info *types.Info, body ast.Node, obj types.Object) ast.Expr {
+	var out ast.Expr
+	ast.Inspect(body, func(x ast.Node) bool {
+		switch v := x.(type) {
+		case *ast.AssignStmt:
+			if v.Tok == token.DEFINE && len(v.Lhs) == len(v.Rhs) {
+				for i, l := range v.Lhs {
+					if id, ok := l.(*ast.Ident); ok && info.Defs[id] == obj {
+						out = v.Rhs[i]
+					}
+				}
+			}
+		case *ast.ValueSpec:
+			for i, nm := range v.Names {
+				if info.Defs[nm] == obj && i < len(v.Values) {
+					out = v.Values[i]
+				}
+			}
+		}
+		return true
+	})
+	return out
+}
+
+// windowRule decides the half-open window of findTimeRangeBounds (C07.window, shared with C30.window:
+// expiry-ordered reads are one of the paths that look at expiry).
+func windowRule(c *core.Ctx, rW *core.Rule) {
+	p := c.P
+	_ = p
+	{
+		f := c.Fn(pkgBeacon + ".beacon.findTimeRangeBounds")
+		info := f.Info()
+		sig := f.Obj.Type().(*types.Signature)
+		body := f.Decl.Body
+		// which bound an expression denotes: a local assigned from <param i>....UnixNano()
+		boundKind := func(e ast.Expr) string {
+			obj := core.ObjOf(info, e)
+			if obj == nil {
+				return ""
+			}
+			kind := ""
+			ast.Inspect(body, func(x ast.Node) bool {
+				as, ok := x.(*ast.AssignStmt)
+				if !ok || len(as.Lhs) != len(as.Rhs) {
+					return true
+				}
+				for i, l := range as.Lhs {
+					if core.ObjOf(info, l) != obj {
+						continue
+					}
+					ast.Inspect(as.Rhs[i], func(y ast.Node) bool {
+						if id, isId := y.(*ast.Ident); isId && sig.Params().Len() >= 2 {
+							if info.Uses[id] == sig.Params().At(0) {
+								kind = "from"
+							}
+							if info.Uses[id] == sig.Params().At(1) {
+								kind = "to"
+							}
+						}
+						return true
+					})
+				}
+				return true
+			})
+			return kind
+		}
+		// result variables
+		var startObj, endObj types.Object
+		ast.Inspect(body, func(x ast.Node) bool {
+			if ret, ok := x.(*ast.ReturnStmt); ok && len(ret.Results) == 2 {
+				a, b2 := core.ObjOf(info, ret.Results[0]), core.ObjOf(info, ret.Results[1])
+				if a != nil && b2 != nil {
+					startObj, endObj = a, b2
+				}
+			}
+			return true
+		})
+		// ascending sort orders: constants assigned to sortOrder by methods whose comparator is <
+		ascConst := map[types.Object]bool{}
+		descConst := map[types.Object]bool{}
+		sortOrderF := p.MustField(pkgBeacon, "beacon", "sortOrder")
+		for _, m := range p.FuncsIn(pkgBeacon) {
+			if m.Decl.Body == nil || m.Decl.Recv == nil {
+				continue
+			}
+			_, op, ok := comparatorOf(m)
+			if !ok {
+				continue
+			}
+			ast.Inspect(m.Decl.Body, func(x ast.Node) bool {
+				if as, isAs := x.(*ast.AssignStmt); isAs && len(as.Lhs) == 1 && len(as.Rhs) == 1 && core.FieldOf(m.Info(), as.Lhs[0]) == sortOrderF {
+					if k, isK := core.ObjOf(m.Info(), as.Rhs[0]).(*types.Const); isK {
+						if op == token.LSS {
+							ascConst[k] = true
+						}
+						if op == token.GTR {
+							descConst[k] = true
+						}
+					}
+				}
+				return true
+			})
+		}
+		// the direction test
+		var dirIf *ast.IfStmt
+		thenAsc, classified := false, false
+		for _, st := range body.List {
+			is, ok := st.(*ast.IfStmt)
+			if !ok || is.Else == nil {
+				continue
+			}
+			cond := is.Cond
+			if id, isId := core.Unparen(cond).(*ast.Ident); isId {
+				if def := localDef(info, body, info.Uses[id]); def != nil {
+					cond = def
+				}
+			}
+			set := map[types.Object]bool{}
+			pure := true
+			var collect func(e ast.Expr)
+			collect = func(e ast.Expr) {
+				e = core.Unparen(e)
+				be, isB := e.(*ast.BinaryExpr)
+				if !isB {
+					pure = false
+					return
+				}
+				switch be.Op {
+				case token.LOR:
+					collect(be.X)
+					collect(be.Y)
+				case token.EQL:
+					if core.FieldOf(info, be.X) == sortOrderF {
+						if k, isK := core.ObjOf(info, be.Y).(*types.Const); isK {
+							set[k] = true
+							return
+						}
+					}
+					pure = false
+				default:
+					pure = false
+				}
+			}
+			collect(cond)
+			if !pure || len(set) == 0 {
+				continue
+			}
+			same := func(a, b map[types.Object]bool) bool {
+				if len(a) != len(b) {
+					return false
+				}
+				for k := range a {
+					if !b[k] {
+						return false
+					}
+				}
+				return true
+			}
+			dirIf = is
+			if same(set, ascConst) {
+				thenAsc, classified = true, true
+			} else if same(set, descConst) {
+				thenAsc, classified = false, true
+			}
+		}
+		if dirIf == nil || !classified || startObj == nil || endObj == nil {
+			rW.Bad(f.Key+":direction-test", f.Decl.Pos(), "the branch between ascending and descending search is not a test of sortOrder against exactly the ascending (or exactly the descending) sort orders: an index direction is searched with the wrong comparison")
+		} else {
+			type pred struct {
+				op     token.Token
+				bound  string
+				minus1 bool
+				pos    token.Pos
+				ok     bool
+				as     *ast.AssignStmt
+				bexpr  ast.Expr
+			}
+			var lastBoundExpr ast.Expr
+			norm := func(be *ast.BinaryExpr) (token.Token, string, bool) {
+				// ts OP bound, ts being a call
+				x, y, op := core.Unparen(be.X), core.Unparen(be.Y), be.Op
+				if _, isCall := x.(*ast.CallExpr); !isCall {
+					if _, yCall := y.(*ast.CallExpr); yCall {
+						x, y, op = y, x, mirror(op)
+					} else {
+						return token.ILLEGAL, "", false
+					}
+				}
+				k := boundKind(y)
+				lastBoundExpr = y
+				return op, k, k != ""
+			}
+			extract := func(branch ast.Stmt, target types.Object) pred {
+				out := pred{}
+				ast.Inspect(branch, func(x ast.Node) bool {
+					blk, ok := x.(*ast.BlockStmt)
+					if !ok {
+						return true
+					}
+					for i, st := range blk.List {
+						as, isAs := st.(*ast.AssignStmt)
+						if !isAs || len(as.Lhs) != 1 || core.ObjOf(info, as.Lhs[0]) != target {
+							continue
+						}
+						rhs := core.Unparen(as.Rhs[0])
+						out.pos = as.Pos()
+						if be, isB := rhs.(*ast.BinaryExpr); isB && be.Op == token.SUB && isConst(info, be.Y, 1) {
+							out.minus1 = true
+							rhs = core.Unparen(be.X)
+						}
+						// sort.Search(n, func(i int) bool { return ts OP bound })
+						if call, isCall := rhs.(*ast.CallExpr); isCall && core.IsCallTo(info, call, "sort.Search") && len(call.Args) == 2 {
+							if lit, isLit := core.Unparen(call.Args[1]).(*ast.FuncLit); isLit && len(lit.Body.List) == 1 {
+								if ret, isRet := lit.Body.List[0].(*ast.ReturnStmt); isRet && len(ret.Results) == 1 {
+									if be, isB := core.Unparen(ret.Results[0]).(*ast.BinaryExpr); isB {
+										out.op, out.bound, out.ok = norm(be)
+										out.as, out.bexpr = as, lastBoundExpr
+									}
+								}
+							}
+							continue
+						}
+						// hand-written bisection: result variable = the local moved by `x = m + 1`
+						resObj := core.ObjOf(info, rhs)
+						if resObj == nil || i == 0 {
+							continue
+						}
+						loop, isLoop := blk.List[i-1].(*ast.ForStmt)
+						if !isLoop {
+							continue
+						}
+						ast.Inspect(loop.Body, func(y ast.Node) bool {
+							is, isIf := y.(*ast.IfStmt)
+							if !isIf {
+								return true
+							}
+							be, isB := core.Unparen(is.Cond).(*ast.BinaryExpr)
+							if !isB {
+								return true
+							}
+							op, k, okN := norm(be)
+							if !okN {
+								return true
+							}
+							// which variable does the then-branch move, and how
+							thenMovesResUp := false
+							thenMovesOther := false
+							for _, st2 := range is.Body.List {
+								if a2, ok2 := st2.(*ast.AssignStmt); ok2 && len(a2.Lhs) == 1 {
+									if core.ObjOf(info, a2.Lhs[0]) == resObj {
+										if b3, isB3 := core.Unparen(a2.Rhs[0]).(*ast.BinaryExpr); isB3 && b3.Op == token.ADD && isConst(info, b3.Y, 1) {
+											thenMovesResUp = true
+										}
+									} else {
+										thenMovesOther = true
+									}
+								}
+							}
+							switch {
+							case thenMovesResUp: // C true -> search to the right: first index where !C
+								out.op, out.bound, out.ok = core.Negate(op), k, true
+								out.as, out.bexpr = as, lastBoundExpr
+							case thenMovesOther: // C true -> this index is a candidate: first index where C
+								out.op, out.bound, out.ok = op, k, true
+								out.as, out.bexpr = as, lastBoundExpr
+							}
+							return true
+						})
+					}
+					return true
+				})
+				return out
+			}
+			var ascBranch, descBranch ast.Stmt = dirIf.Body, dirIf.Else
+			if !thenAsc {
+				ascBranch, descBranch = dirIf.Else, dirIf.Body
+			}
+			want := []struct {
+				key    string
+				branch ast.Stmt
+				target types.Object
+				op     token.Token
+				bound  string
+				minus1 bool
+				text   string
+			}{
+				{"asc/start", ascBranch, startObj, token.GEQ, "from", false, "first index with ts >= from"},
+				{"asc/end", ascBranch, endObj, token.GEQ, "to", true, "(first index with ts >= to) - 1"},
+				{"desc/start", descBranch, startObj, token.LSS, "to", false, "first index with ts < to"},
+				{"desc/end", descBranch, endObj, token.LSS, "from", true, "(first index with ts < from) - 1"},
+			}
+			for _, w := range want {
+				got := extract(w.branch, w.target)
+				construct := f.Key + ":" + w.key
+				if !got.ok {
+					rW.Undecided(construct, got.pos, "the search that sets this bound is neither a bisection of the recognised shape nor a sort.Search call")
+					continue
+				}
+				m1 := ""
+				if got.minus1 {
+					m1 = " - 1"
+				}
+				rW.Check(got.op == w.op && got.bound == w.bound && got.minus1 == w.minus1, construct, got.pos, w.text,
+					"this bound is (first index with ts "+got.op.String()+" "+got.bound+")"+m1+"; the half-open window [from,to) needs "+w.text+": a record whose timestamp equals a bound is returned or dropped on the wrong side")
+				// an absent bound means "unbounded on that side": the search runs only when the bound
+				// was given (and the result variable then keeps its whole-range default), or the value
+				// searched for when it is absent is the end of the int64 domain that excludes nothing
+				if got.as != nil && got.bound != "" {
+					prm := sig.Params().At(0)
+					if got.bound == "to" {
+						prm = sig.Params().At(1)
+					}
+					guarded := false
+					for _, n := range core.PathTo(body, got.as) {
+						is, isIf := n.(*ast.IfStmt)
+						if !isIf || !(is.Body.Pos() <= got.as.Pos() && got.as.End() <= is.Body.End()) {
+							continue
+						}
+						if be, isB := core.Unparen(is.Cond).(*ast.BinaryExpr); isB && be.Op == token.NEQ && core.ObjOf(info, be.X) == prm && core.IsNilIdent(info, be.Y) {
+							guarded = true
+						}
+					}
+					why := ""
+					okAbsent := false
+					if guarded {
+						// whole-range default of the result variable
+						def := defineExpr(info, body, w.target)
+						switch {
+						case def == nil:
+							why = "the result variable has no defining value"
+						case w.target == startObj:
+							okAbsent = isConst(info, def, 0)
+							why = "default of the start index is " + core.ExprStr(def)
+						default:
+							be, isB := core.Unparen(def).(*ast.BinaryExpr)
+							okAbsent = isB && be.Op == token.SUB && isConst(info, be.Y, 1)
+							why = "default of the end index is " + core.ExprStr(def)
+						}
+					} else {
+						// unguarded search: value of the bound local when the parameter is nil
+						bobj := core.ObjOf(info, got.bexpr)
+						var dflt ast.Expr
+						zero := false
+						ast.Inspect(body, func(x ast.Node) bool {
+							switch v := x.(type) {
+							case *ast.ValueSpec:
+								for i, nm := range v.Names {
+									if info.Defs[nm] == bobj {
+										if i < len(v.Values) {
+											dflt = v.Values[i]
+										} else {
+											zero = true
+										}
+									}
+								}
+							case *ast.AssignStmt:
+								if v.Tok == token.DEFINE && len(v.Lhs) == len(v.Rhs) {
+									for i, l := range v.Lhs {
+										if id, isId := l.(*ast.Ident); isId && info.Defs[id] == bobj {
+											dflt = v.Rhs[i]
+										}
+									}
+								}
+							}
+							return true
+						})
+						switch {
+						case zero:
+							why = "an absent " + got.bound + " bound is searched as 0"
+						case dflt == nil:
+							why = "the value searched for an absent " + got.bound + " bound is not a constant"
+						default:
+							tv := info.Types[dflt]
+							why = "an absent " + got.bound + " bound is searched as " + core.ExprStr(dflt)
+							if tv.Value != nil && got.bound == "from" {
+								if v, exact := constant.Int64Val(constant.ToInt(tv.Value)); exact && v == math.MinInt64 {
+									okAbsent = true
+								}
+							}
+						}
+					}
+					rW.Check(okAbsent, construct+":absent-bound", got.as.Pos(), "an absent bound leaves that side of the window open",
+						"when the "+got.bound+" bound is not given this search still cuts the window ("+why+"): records beyond that value (timestamps before 1970 for a zero lower bound) are dropped from the ordered read although no bound excludes them")
+				}
+			}
+		}
 	}
 }
